@@ -32,8 +32,9 @@ func lsh(a *big.Int, k int) *big.Int { return new(big.Int).Lsh(a, uint(k)) }
 // bits of k (right-to-left binary method on top of ec.Add/ec.Double). The scalar is
 // NOT reduced: [k]P is computed for the integer k as given.
 type tab struct {
-	p   ec.Point
-	pow []ec.Point
+	p    ec.Point
+	pow  []ec.Point
+	memo map[string]ec.Point
 }
 
 func newTab(p ec.Point) *tab { return &tab{p: p, pow: []ec.Point{p}} }
@@ -55,6 +56,29 @@ func (t *tab) mul(k *big.Int) ec.Point {
 	return r
 }
 
+// mulMemo is mul with the result remembered (for scalars that recur: the three byte-string
+// forms of an edge value, the shared background of a window sweep).
+func (t *tab) mulMemo(k *big.Int) ec.Point {
+	key := string(k.Bytes())
+	if r, ok := t.memo[key]; ok {
+		return r
+	}
+	if t.memo == nil {
+		t.memo = map[string]ec.Point{}
+	}
+	r := t.mul(k)
+	t.memo[key] = r
+	return r
+}
+
+// mulSplit returns [hi+lo]P as [hi]P + [lo]P with [hi]P remembered.
+func (t *tab) mulSplit(hi, lo *big.Int) ec.Point {
+	if hi == nil {
+		return t.mul(lo)
+	}
+	return ec.Add(t.mulMemo(hi), t.mul(lo))
+}
+
 var gTab = newTab(ec.G)
 
 // refBase returns [k]G for the integer k.
@@ -69,14 +93,17 @@ type npoint struct {
 	t    *tab
 }
 
-func (q *npoint) mul(k *big.Int) ec.Point {
+func (q *npoint) mul(k *big.Int) ec.Point { return q.mulSplit(nil, k) }
+
+// mulSplit returns [hi+lo]Q with [hi]Q remembered (hi may be nil).
+func (q *npoint) mulSplit(hi, lo *big.Int) ec.Point {
 	if q.p.Inf {
 		return ec.Infinity
 	}
 	if q.t == nil {
 		q.t = newTab(q.p)
 	}
-	return q.t.mul(k)
+	return q.t.mulSplit(hi, lo)
 }
 
 // affine returns the elliptic.Curve convention for a reference point: (0,0) is infinity.
@@ -378,6 +405,12 @@ func selfTest(x *mon.Ctx) {
 		k := new(big.Int).SetBytes(r.Bytes(8 + 8*i + 9*(i/3)))
 		if !refBase(k).Equal(ec.Mul(k, ec.G)) || !tb.mul(k).Equal(ec.Mul(k, pt)) {
 			x.HarnessError("doubling-table multiplication disagrees with ec.Mul for k=%x", k)
+		}
+	}
+	hi, lo := new(big.Int).SetBytes(r.Bytes(32)), new(big.Int).SetBytes(r.Bytes(3))
+	for i := 0; i < 2; i++ { // second round answers from the memo
+		if !tb.mulSplit(hi, lo).Equal(ec.Mul(add(hi, lo), pt)) || !tb.mulMemo(lo).Equal(ec.Mul(lo, pt)) {
+			x.HarnessError("split / memoised multiplication disagrees with ec.Mul")
 		}
 	}
 	if !refBase(ec.N).Inf || !refBase(add(ec.N, one)).Equal(ec.G) {
